@@ -141,6 +141,10 @@ type RouterRun struct {
 	EndKind string
 	Pulls   []int // in abstract units
 	Tag     int64
+	// Second: after the first connection, run an identical second connection through the SAME provisioned and
+	// compiled route list (handlers keep state between connections); its history is left in SecondHist
+	Second     bool
+	SecondHist []Ev
 }
 
 // RunRouter provisions the real route list from JSON, compiles it with a recording fallback
@@ -171,20 +175,8 @@ func RunRouter(run *RouterRun) (hist []Ev, aux []Ev, err error) {
 		return nil, nil, fmt.Errorf("provision: %v", err)
 	}
 
-	stream := MakeStream(run.Tag, run.Slen*run.Scale+64)
-	if n := ppHeaderLen(run.Cfg); n > 0 {
-		// the stream begins with a PROXY header of exactly n units
-		hdr := MakeProxyHeader(n * run.Scale)
-		copy(stream, hdr)
-	}
-	rec := NewRecorder(stream)
-	pulls := make([]int, len(run.Pulls))
-	for i, p := range run.Pulls {
-		pulls[i] = p * run.Scale
-	}
-	sc := &ScriptConn{Rec: rec, Slen: run.Slen * run.Scale, EndKind: run.EndKind, Pulls: pulls,
-		Start: time.Now(), Unit: DlUnit}
 	fallback := layer4.HandlerFunc(func(cx *layer4.Connection) error {
+		rec := cx.GetVar(RecKey).(*Recorder)
 		rec.Add(Ev{"e": "Fallback", "l": 1, "vis": len(cx.MatchingBytes()), "pos": rec.Expect})
 		// the harness's fallback reads the rest of the stream: it must have received it intact
 		segs, _ := readRecorded(rec, cx, -1)
@@ -192,56 +184,77 @@ func RunRouter(run *RouterRun) (hist []Ev, aux []Ev, err error) {
 		return nil
 	})
 	compiled := routes.Compile(zap.NewNop(), DlUnit, fallback)
-	cx := layer4.WrapConnection(sc, make([]byte, 0, 2048), zap.NewNop())
-	cx.SetVar(RecKey, rec)
-
-	func() {
-		defer func() {
-			if p := recover(); p != nil {
-				rec.Add(Ev{"e": "Panic", "msg": fmt.Sprint(p)})
-			}
-		}()
-		herr := compiled.Handle(cx)
-		if rec.EchoL != 0 {
-			// the real echo handler ran: what it wrote back is what it read
-			var segs Segs
-			segs = rec.NoteRead(segs, sc.Written)
-			addHRead(rec, segs)
-			rec.Add(Ev{"e": "Term", "l": rec.EchoL, "r": rec.EchoR})
+	one := func() *Recorder {
+		stream := MakeStream(run.Tag, run.Slen*run.Scale+64)
+		if n := ppHeaderLen(run.Cfg); n > 0 {
+			// the stream begins with a PROXY header of exactly n units
+			hdr := MakeProxyHeader(n * run.Scale)
+			copy(stream, hdr)
 		}
-		if herr != nil {
-			noted := false
-			for _, e := range rec.Snapshot() {
-				if e["e"] == "HErr" {
-					noted = true
-				}
-			}
-			if !noted {
-				rec.Add(Ev{"e": "HErr"})
-			}
+		rec := NewRecorder(stream)
+		pulls := make([]int, len(run.Pulls))
+		for i, p := range run.Pulls {
+			pulls[i] = p * run.Scale
 		}
-		fbSeen := false
-		for _, e := range rec.Hist {
-			if e["e"] == "Fallback" && e["l"] == 1 {
-				fbSeen = true
-			}
-		}
-		if herr == nil && !fbSeen {
-			if kind, ok := ListEnded(rec, 0); ok {
-				rec.Add(Ev{"e": "Abort", "k": kind})
-			}
-		}
-		if rec.TeeSeen {
-			// the branch's pipe closes when the main chain reads EOF; otherwise it never finishes
-			wait := 2 * time.Millisecond
-			if last := rec.Last(); last != nil && (last["e"] == "Term" || last["e"] == "HRead") {
-				wait = 500 * time.Millisecond
-			}
-			rec.WaitBranch(wait)
-		}
-		rec.Add(Ev{"e": "Return"})
-	}()
+		sc := &ScriptConn{Rec: rec, Slen: run.Slen * run.Scale, EndKind: run.EndKind, Pulls: pulls,
+			Start: time.Now(), Unit: DlUnit}
+		cx := layer4.WrapConnection(sc, make([]byte, 0, 2048), zap.NewNop())
+		cx.SetVar(RecKey, rec)
+		runOne(rec, sc, cx, compiled)
+		return rec
+	}
+	rec := one()
+	if run.Second {
+		run.SecondHist = one().Hist
+	}
 	return rec.Hist, rec.Aux, nil
+}
+
+func runOne(rec *Recorder, sc *ScriptConn, cx *layer4.Connection, compiled layer4.Handler) {
+	defer func() {
+		if p := recover(); p != nil {
+			rec.Add(Ev{"e": "Panic", "msg": fmt.Sprint(p)})
+		}
+	}()
+	herr := compiled.Handle(cx)
+	if rec.EchoL != 0 {
+		// the real echo handler ran: what it wrote back is what it read
+		var segs Segs
+		segs = rec.NoteRead(segs, sc.Written)
+		addHRead(rec, segs)
+		rec.Add(Ev{"e": "Term", "l": rec.EchoL, "r": rec.EchoR})
+	}
+	if herr != nil {
+		noted := false
+		for _, e := range rec.Snapshot() {
+			if e["e"] == "HErr" {
+				noted = true
+			}
+		}
+		if !noted {
+			rec.Add(Ev{"e": "HErr"})
+		}
+	}
+	fbSeen := false
+	for _, e := range rec.Hist {
+		if e["e"] == "Fallback" && e["l"] == 1 {
+			fbSeen = true
+		}
+	}
+	if herr == nil && !fbSeen {
+		if kind, ok := ListEnded(rec, 0); ok {
+			rec.Add(Ev{"e": "Abort", "k": kind})
+		}
+	}
+	if rec.TeeSeen {
+		// the branch's pipe closes when the main chain reads EOF; otherwise it never finishes
+		wait := 2 * time.Millisecond
+		if last := rec.Last(); last != nil && (last["e"] == "Term" || last["e"] == "HRead") {
+			wait = 500 * time.Millisecond
+		}
+		rec.WaitBranch(wait)
+	}
+	rec.Add(Ev{"e": "Return"})
 }
 
 // ScaleHist divides every byte quantity of a history by scale; ok is false when some
